@@ -112,7 +112,8 @@ def parse_telegram_url(url):
                 else:
                     return None
 
-            elif len(path) == 3 and is_telegram_message_id(path[2]):
+            # NOTE: `/s//123` has an empty middle segment, not a channel name
+            elif len(path) == 3 and path[1] and is_telegram_message_id(path[2]):
                 return TelegramMessage(name=path[1], id=path[2])
 
             elif len(path) == 2:
